@@ -42,8 +42,10 @@ CHECKS["C20"] = dict(
 _c19_q = [inst("root", "VHNumeric", {"FN": f}, solver="cvc5", timeout_ms=300000) for f in range(6)]
 _c19_q += [inst("root", "VHConversions", {"CASE": c}, solver="cvc5", workers=2) for c in (0, 1, 2, 3)]
 _c19_q += [inst("root", "VHConversions", {"CASE": 4}, solver="z3", workers=4), inst("root", "VHConversions", {"CASE": 5}, solver="z3", workers=2, must_reach=["number-roundtrip-nonintegral"])]
-_c19_q += [inst("root", "VHRoundPlaces", {"N": n, "B": 10}, solver="cvc5", timeout_ms=900000) for n in (0, 1, 2)]
-_c19_t = _c19_q + [inst("root", "VHRoundPlaces", {"N": 3, "B": 10}, solver="cvc5", timeout_ms=3000000)]
+_c19_q += [inst("root", "VHRoundPlaces", {"N": n, "B": 10}, solver="cvc5", timeout_ms=900000) for n in (0, 1)]
+_c19_t = _c19_q + [inst("root", "VHRoundPlaces", {"N": 2, "B": 10}, solver="cvc5", timeout_ms=900000),
+                   inst("root", "VHRoundPlaces", {"N": 3, "B": 10}, solver="cvc5", timeout_ms=3000000),
+                   inst("root", "VHRoundPlaces", {"N": 4, "B": 4}, solver="cvc5", timeout_ms=3000000)]
 CHECKS["C19"] = dict(
     level="model_checking",
     claim="Each clause of the property is one floating-point SMT obligation over the real built-in, reached by name through the real function "
@@ -289,7 +291,6 @@ CHECKS["C13"] = dict(
     instances=dict(
         quick=[_mk("VHMarkupTemplate", ITEMS=2, PROPS=0, must_reach=["parsed", "attribute"]),
                _mk("VHMarkupTemplate", ITEMS=3, PROPS=0, SHORTHAND=0, workers=16, must_reach=["parsed", "attribute", "nonempty-attribute"]),
-               _mk("VHMarkupTemplate", ITEMS=4, PROPS=0, SHORTHAND=0, workers=16, must_reach=["parsed", "attribute", "nonempty-attribute"]),
                _mk("VHCharacterPrefix", must_reach=["character"]),
                _mk("VHReplacement", must_reach=["select", "plural", "ordinal", "nomarkup"]),
                _mk("VHSelfClosingTrim", must_reach=["selfclosing"])],
